@@ -67,6 +67,10 @@ fn build(idx: usize, n: &Node) -> Tpl {
 struct Run {
     graph: Sink,
     render: Sink,
+    hist: Sink,
+    hrender: Sink,
+    histories: usize,
+    short_name_checks: usize,
     meta: Meta,
     limit: Duration,
     accepted: usize,
@@ -77,7 +81,37 @@ struct Run {
 
 impl Run {
     fn case(&mut self, prefixes: &[String], set: &[(String, Tpl)], tags: &[&str], kf: Option<&str>) {
+        self.case_more(prefixes, set, &[], tags, kf)
+    }
+
+    /// `more`: further names handed to render() (short names that resolve through a prefix)
+    /// Registration itself is first tried in a child process when fallback prefixes are in play
+    /// (resolution is then part of both walks): a registration that does not return is reported
+    /// with its input instead of taking the harness down.  true = it returned.
+    fn preflight(&mut self, prefixes: &[String], batches: &[Vec<(String, String)>], input: serde_json::Value) -> bool {
+        // the parent walk is the one place where resolution decides whether a recursion ends
+        if prefixes.is_empty() || !batches.iter().flatten().any(|(_, s)| s.contains("{% extends")) {
+            return true;
+        }
+        let job = json!({"prefixes": prefixes, "strict": false, "names": [], "start": 0,
+            "calls": batches.iter().map(|b| json!(b.iter().map(|(n, s)| json!([n, s])).collect::<Vec<_>>())).collect::<Vec<_>>()});
+        let (_, bad) = run_child_with("render-child", &job, self.limit);
+        self.meta.oracle_checks += 1;
+        match bad {
+            None => true,
+            Some(how) => {
+                self.aborted += 1;
+                self.meta.oracle_fail(&format!("add_raw_templates did not return ({how}): registration must end with Ok or an error value"), None, input);
+                false
+            }
+        }
+    }
+
+    fn case_more(&mut self, prefixes: &[String], set: &[(String, Tpl)], more: &[String], tags: &[&str], kf: Option<&str>) {
         let srcs: Vec<(String, String)> = set.iter().map(|(n, t)| (n.clone(), source_of(t))).collect();
+        if !self.preflight(prefixes, &[srcs.clone()], json!({"prefixes": prefixes, "templates": json_set(set)})) {
+            return;
+        }
         let mut tera = new_tera(prefixes);
         let r = add_all(&mut tera, &srcs);
         let impl_g = match &r {
@@ -109,13 +143,48 @@ impl Run {
         }
         if r.is_ok() {
             self.accepted += 1;
-            let outs = render_all_in_child(prefixes, &srcs, self.limit);
-            self.renders += outs.len();
+            // entries: every registered name, every extra short name, then for each short name s
+            // and the name r the documented rule resolves it to (exact, then the prefixes in
+            // order): render_block(s, y), render_block(r, y)
+            let reg: Vec<String> = srcs.iter().map(|(n, _)| n.clone()).collect();
+            let mut entries: Vec<String> = reg.clone();
+            entries.extend(more.iter().cloned());
+            let n_model = entries.len();
+            let resolved: Vec<Option<String>> = more.iter().map(|m| spec_resolve(prefixes, &reg, m)).collect();
+            for (m, r) in more.iter().zip(resolved.iter()) {
+                if let Some(r) = r {
+                    entries.push(format!("{m}#y"));
+                    entries.push(format!("{r}#y"));
+                }
+            }
+            let all = render_entries_in_child(prefixes, &[srcs.clone()], true, &entries, self.limit);
+            // implementation-side oracle for the documented resolution rule
+            {
+                let mut k = n_model;
+                for (i, (m, r)) in more.iter().zip(resolved.iter()).enumerate() {
+                    if let Some(r) = r {
+                        self.short_name_checks += 1;
+                        self.meta.oracle_checks += 1;
+                        let by_short = &all[reg.len() + i];
+                        let by_full = &all[reg.iter().position(|x| x == r).unwrap()];
+                        if by_short != by_full || all[k] != all[k + 1] {
+                            self.meta.oracle_fail(
+                                &format!("render/render_block of the short name \"{m}\" is not that of \"{r}\" (exact name first, then the prefixes {prefixes:?} in order): render {:?} vs {:?}; render_block y {:?} vs {:?}", by_short, by_full, all[k], all[k + 1]),
+                                kf,
+                                json!({"prefixes": prefixes, "templates": json_set(set)}),
+                            );
+                        }
+                        k += 2;
+                    }
+                }
+            }
+            let outs: Vec<ROut> = all[..n_model].to_vec();
+            self.renders += all.len();
             let og: Vec<String> = outs.iter().map(|o| o.gal()).collect();
-            let rg = format!("{{| r_pre := {pre_g}; r_set := {set_g}; r_impl := [{}] |}}", og.join("; "));
+            let rg = format!("{{| r_pre := {pre_g}; r_set := {set_g}; r_more := {}; r_impl := [{}] |}}", gal_names(more), og.join("; "));
             let rdesc = json!({"prefixes": prefixes, "templates": json_set(set),
-                "renders": outs.iter().zip(srcs.iter()).map(|(o, (n, _))| json!([n, o.json()])).collect::<Vec<_>>()});
-            for (o, (n, _)) in outs.iter().zip(srcs.iter()) {
+                "renders": outs.iter().zip(entries.iter()).map(|(o, n)| json!([n, o.json()])).collect::<Vec<_>>()});
+            for (o, n) in all.iter().zip(entries.iter()) {
                 self.meta.oracle_checks += 1;
                 if o.is_bad() {
                     self.aborted += 1;
@@ -135,6 +204,250 @@ impl Run {
             self.rejected += 1;
         }
     }
+}
+
+impl Run {
+    /// A multi-call history on ONE long-lived instance: `pool` holds the (name, template)
+    /// descriptors, `calls` the batches as indices into it.  After every call accept/reject +
+    /// ErrorKind is recorded (vs Model.Registry.run); after every ACCEPTED call every current
+    /// template is rendered on a replayed instance in a child process (termination oracle), and
+    /// the renders after the last call are compared with the model.
+    fn history(&mut self, prefixes: &[String], pool: &[(String, Tpl)], calls: &[Vec<usize>], tags: &[&str]) {
+        let srcs: Vec<(String, String)> = pool.iter().map(|(n, t)| (n.clone(), source_of(t))).collect();
+        {
+            let all: Vec<Vec<(String, String)>> = calls.iter().map(|idx| idx.iter().map(|i| srcs[*i].clone()).collect()).collect();
+            let input = json!({"prefixes": prefixes, "calls": all.iter().map(|b| json!({"add": b.iter().map(|(n, s)| json!([n, s])).collect::<Vec<_>>()})).collect::<Vec<_>>()});
+            if !self.preflight(prefixes, &all, input) {
+                return;
+            }
+        }
+        let mut tera = new_tera(prefixes);
+        let mut results: Vec<String> = vec![];
+        let mut jcalls = vec![];
+        let mut batches: Vec<Vec<(String, String)>> = vec![];
+        let mut names: std::collections::BTreeSet<String> = Default::default();
+        let mut last_outs: Vec<ROut> = vec![];
+        let mut any_ok = false;
+        let mut any_err = false;
+        let mut stale = false;
+        self.histories += 1;
+        for (ci, idx) in calls.iter().enumerate() {
+            let batch: Vec<(String, String)> = idx.iter().map(|i| srcs[*i].clone()).collect();
+            let r = add_all(&mut tera, &batch);
+            batches.push(batch.clone());
+            jcalls.push(json!({"add": batch.iter().map(|(n, s)| json!([n, s])).collect::<Vec<_>>(),
+                "impl": match &r { Ok(()) => json!("ok"), Err(c) => json!({"err": c}) }}));
+            self.meta.oracle_checks += 1;
+            match &r {
+                Ok(()) => {
+                    any_ok = true;
+                    results.push("(Ok tt)".into());
+                    for (n, _) in &batch {
+                        names.insert(n.clone());
+                    }
+                    // the first call is a plain one-batch registration (covered by the `graph`
+                    // family): render after every later accepted call, and after the last one
+                    if ci == 0 && calls.len() > 1 {
+                        stale = true;
+                        continue;
+                    }
+                    stale = false;
+                    let entries: Vec<String> = names.iter().cloned().collect();
+                    let outs = render_entries_in_child(prefixes, &batches, false, &entries, self.limit);
+                    self.renders += outs.len();
+                    for (o, n) in outs.iter().zip(entries.iter()) {
+                        self.meta.oracle_checks += 1;
+                        if o.is_bad() {
+                            self.aborted += 1;
+                            self.meta.oracle_fail(
+                                &format!("after the ACCEPTED call {ci} render(\"{n}\") did not end with text or an error value: {:?}", o),
+                                None,
+                                json!({"prefixes": prefixes, "calls": jcalls}),
+                            );
+                        }
+                    }
+                    last_outs = outs;
+                }
+                Err(c) => {
+                    any_err = true;
+                    if c == "panic" {
+                        self.meta.oracle_fail("registration panicked", None, json!({"prefixes": prefixes, "calls": jcalls}));
+                    }
+                    results.push(format!("(Err {})", gal_ekind(c)));
+                }
+            }
+        }
+        if stale {
+            // only the first call was accepted: the state to render is still that one
+            let entries: Vec<String> = names.iter().cloned().collect();
+            let outs = render_entries_in_child(prefixes, &batches, false, &entries, self.limit);
+            self.renders += outs.len();
+            for (o, n) in outs.iter().zip(entries.iter()) {
+                self.meta.oracle_checks += 1;
+                if o.is_bad() {
+                    self.aborted += 1;
+                    self.meta.oracle_fail(
+                        &format!("at the end of the history render(\"{n}\") did not end with text or an error value: {:?}", o),
+                        None,
+                        json!({"prefixes": prefixes, "calls": jcalls}),
+                    );
+                }
+            }
+            last_outs = outs;
+        }
+        let pool_g: Vec<String> = pool.iter().map(|(n, t)| format!("({}, {})", gal_name(n), gal_source(t))).collect();
+        let calls_g: Vec<String> = calls
+            .iter()
+            .map(|idx| format!("HAdd [{}]%nat", idx.iter().map(|i| i.to_string()).collect::<Vec<_>>().join(";")))
+            .collect();
+        let hg = format!(
+            "{{| h_pre := {}; h_known := []; h_sufs := []; h_pool := [{}]; h_calls := [{}]; h_impl := [{}] |}}",
+            gal_names(prefixes),
+            pool_g.join("; "),
+            calls_g.join("; "),
+            results.join("; ")
+        );
+        let desc = json!({"prefixes": prefixes, "calls": jcalls});
+        let t2 = if any_err && any_ok { "mixed ok/err" } else if any_err { "only err" } else { "only ok" };
+        let mut tg: Vec<&str> = tags.to_vec();
+        tg.push(t2);
+        let before = self.hist.count;
+        self.hist.push(hg.clone(), desc.clone(), calls.len() >= 2 && any_ok, None, &tg);
+        if self.hist.count == before || !any_ok {
+            return;
+        }
+        // renders after the last call (the state is that of the last accepted call)
+        let entries: Vec<String> = names.iter().cloned().collect();
+        let og: Vec<String> = last_outs.iter().map(|o| o.gal()).collect();
+        let rg = format!("{{| hr_hist := {hg}; hr_names := {}; hr_impl := [{}] |}}", gal_names(&entries), og.join("; "));
+        let rdesc = json!({"prefixes": prefixes, "calls": jcalls,
+            "renders": last_outs.iter().zip(entries.iter()).map(|(o, n)| json!([n, o.json()])).collect::<Vec<_>>()});
+        self.hrender.push(rg, rdesc, calls.len() >= 2, None, tags);
+    }
+
+    /// Registers `set` in stages: the templates in `later` come in a second call; with
+    /// `placeholder` they are first registered as plain text leaves (so the second call REPLACES
+    /// them), otherwise they are simply absent from the first call.
+    fn staged(&mut self, prefixes: &[String], set: &[(String, Tpl)], later: &[usize], placeholder: bool, tags: &[&str]) {
+        let n = set.len();
+        let mut pool: Vec<(String, Tpl)> = set.to_vec();
+        for (i, (name, _)) in set.iter().enumerate() {
+            pool.push((name.clone(), Tpl::new(None, vec![Item::Text(900 + i as u32)])));
+        }
+        let mut first: Vec<usize> = vec![];
+        for i in 0..n {
+            if later.contains(&i) {
+                if placeholder {
+                    first.push(n + i);
+                }
+            } else {
+                first.push(i);
+            }
+        }
+        let mut calls = vec![];
+        if !first.is_empty() {
+            calls.push(first);
+        }
+        calls.push(later.to_vec());
+        self.history(prefixes, &pool, &calls, tags);
+    }
+}
+
+/// the documented rule: the exact name, then each prefix in order
+fn spec_resolve(prefixes: &[String], names: &[String], n: &str) -> Option<String> {
+    if names.iter().any(|x| x == n) {
+        return Some(n.to_string());
+    }
+    for p in prefixes {
+        let c = format!("{p}{n}");
+        if names.iter().any(|x| *x == c) {
+            return Some(c);
+        }
+    }
+    None
+}
+
+fn has_include(t: &Tpl) -> bool {
+    source_of(t).contains("{% include")
+}
+
+/// Short names living under several prefixes and/or exactly.  `m` refers to "a" in the way
+/// `kind` says (0 extends, 1 include in body, 2 in block, 3 in a component body); the copies of
+/// "a" present are the bits of `copies` over [a, p/a, q/a]; digit i of `beh` (base 3) says what
+/// copy i does: 0 leaf, 1 includes m, 2 extends m.
+fn shadow_set(copies: u8, beh: u32, kind: u8) -> Vec<(String, Tpl)> {
+    let mut set = vec![];
+    let mut m = Node { name: "m".into(), ..Default::default() };
+    match kind {
+        0 => {
+            m.extends = Some("a".into());
+            m.sup = true;
+        }
+        1 => m.inc_body.push("a".into()),
+        2 => m.inc_block.push("a".into()),
+        _ => m.inc_comp.push("a".into()),
+    }
+    set.push(("m".to_string(), build(0, &m)));
+    let mut b = beh;
+    for (i, nm) in ["a", "p/a", "q/a"].iter().enumerate() {
+        if copies >> i & 1 == 0 {
+            continue;
+        }
+        let d = b % 3;
+        b /= 3;
+        let mut node = Node { name: nm.to_string(), ..Default::default() };
+        match d {
+            1 => node.inc_body.push("m".into()),
+            2 => {
+                node.extends = Some("m".into());
+                node.sup = true;
+            }
+            _ => {}
+        }
+        set.push((nm.to_string(), build(i + 1, &node)));
+    }
+    set
+}
+
+/// 2-3 fallback prefixes, short names a/b/c present under several prefixes and/or exactly,
+/// referenced by their short names through extends and every include placement
+fn multi_prefix_set(rng: &mut Rng) -> (Vec<String>, Vec<(String, Tpl)>, Vec<String>) {
+    let configs: [&[&str]; 6] = [&["p/", "q/"], &["q/", "p/"], &["p/", "q/", "r/"], &["r/", "q/", "p/"], &["q/", "r/"], &["p/", "p/q/"]];
+    let prefixes: Vec<String> = rng.pick(&configs).iter().map(|s| s.to_string()).collect();
+    let shorts = ["a", "b", "c"];
+    let locs = ["", "p/", "q/", "r/", "p/q/"];
+    let mut names: Vec<String> = vec![];
+    for sh in shorts {
+        // mostly several prefixed copies and no exact one
+        for (li, l) in locs.iter().enumerate() {
+            let p = if li == 0 { (1, 4) } else if li <= 2 { (3, 5) } else { (1, 4) };
+            if rng.chance(p.0, p.1) {
+                names.push(format!("{l}{sh}"));
+            }
+        }
+    }
+    if names.is_empty() {
+        names.push("p/a".into());
+    }
+    let mut set = vec![];
+    for (i, nm) in names.iter().enumerate() {
+        let mut node = Node { name: nm.clone(), ..Default::default() };
+        if rng.chance(1, 4) {
+            node.extends = Some(rng.pick(&shorts).to_string());
+            node.sup = rng.chance(1, 2);
+        }
+        if rng.chance(1, 2) {
+            let tgt = rng.pick(&shorts).to_string();
+            match rng.below(3) {
+                0 => node.inc_body.push(tgt),
+                1 => node.inc_block.push(tgt),
+                _ => node.inc_comp.push(tgt),
+            }
+        }
+        set.push((nm.clone(), build(i, &node)));
+    }
+    let more: Vec<String> = shorts.iter().map(|s| s.to_string()).filter(|s| !names.contains(s) && spec_resolve(&prefixes, &names, s).is_some()).collect();
+    (prefixes, set, more)
 }
 
 const NAMES: [&str; 4] = ["a", "b", "c", "d"];
@@ -376,10 +689,14 @@ fn main() {
     }
     let mut rng = Rng::new(args.seed);
     let thorough = args.tier == "thorough";
-    let hdr = "From TeraV Require Import Model.Value Model.Registry Corr.CorrC11.";
+    let hdr = "From TeraV Require Import Model.Value Model.Registry Corr.CorrC11 Corr.CorrC10.";
     let mut run = Run {
         graph: Sink::new(&args.out, "graph", hdr, "check_graph"),
         render: Sink::new(&args.out, "render", hdr, "check_render"),
+        hist: Sink::new(&args.out, "history", hdr, "check_history"),
+        hrender: Sink::new(&args.out, "hrender", hdr, "check_hrender"),
+        histories: 0,
+        short_name_checks: 0,
         meta: Meta::default(),
         limit: Duration::from_secs(20),
         accepted: 0,
@@ -501,6 +818,108 @@ fn main() {
         }
     }
 
+    // --- short names under several prefixes: every combination of copies of "a" (exact, p/, q/),
+    // of what each copy does, of how m refers to it, under both prefix orders
+    let mut shadow = 0usize;
+    for order in 0..2 {
+        let prefixes: Vec<String> = if order == 0 { vec!["p/".into(), "q/".into()] } else { vec!["q/".into(), "p/".into()] };
+        for copies in 1..8u8 {
+            let k = copies.count_ones();
+            for beh in 0..3u32.pow(k) {
+                for kind in 0..4u8 {
+                    let set = shadow_set(copies, beh, kind);
+                    let reg: Vec<String> = set.iter().map(|(n, _)| n.clone()).collect();
+                    let more: Vec<String> = if copies & 1 == 0 && spec_resolve(&prefixes, &reg, "a").is_some() { vec!["a".into()] } else { vec![] };
+                    run.case_more(&prefixes, &set, &more, &["shadow"], None);
+                    shadow += 1;
+                    // the exact name arrives in a later call and shadows the prefixed copies
+                    if copies & 1 == 1 && copies != 1 && (thorough || (beh + kind as u32) % 2 == 0) {
+                        let later = vec![1usize];
+                        run.staged(&prefixes, &set, &later, false, &["hist:shadow-later"]);
+                    }
+                }
+            }
+        }
+    }
+    {
+        let k = if thorough { 3000 } else { 200 };
+        for _ in 0..k {
+            let (p, s, more) = multi_prefix_set(&mut rng);
+            run.case_more(&p, &s, &more, &["multi-prefix"], None);
+            if rng.chance(1, 3) && s.len() >= 2 {
+                let later: Vec<usize> = (0..s.len()).filter(|_| rng.chance(1, 2)).collect();
+                if !later.is_empty() {
+                    let ph = rng.chance(1, 2);
+                    run.staged(&p, &s, &later, ph, &["hist:multi-prefix"]);
+                }
+            }
+        }
+    }
+
+    // --- histories: the same graphs registered in stages on one long-lived instance.  The set
+    // that must be acyclic is the WHOLE current set after every call: a later batch with no
+    // include tag at all (only extends / text / blocks) can close an include cycle through
+    // inheritance, by replacing an include target, or by shadowing a prefixed name
+    for n in 1..=2usize {
+        for ext in 0..(n as u32 + 2).pow(n as u32) {
+            for mask in 0..(1u32 << (n * n)) {
+                for kind in 1..4u8 {
+                    let set = mixed_set(n, ext, mask, kind, false);
+                    for sub in 1..(1u32 << n) {
+                        let later: Vec<usize> = (0..n).filter(|i| sub >> i & 1 == 1).collect();
+                        for ph in [true, false] {
+                            if !thorough && !rng.chance(1, 5) {
+                                continue;
+                            }
+                            run.staged(&none, &set, &later, ph, &["hist:mixed"]);
+                        }
+                    }
+                }
+            }
+        }
+    }
+    {
+        let k = if thorough { 4000 } else { 220 };
+        for _ in 0..k {
+            let ext = rng.below(125) as u32;
+            let mut mask = (rng.next() & 0x1ff) as u32;
+            if rng.chance(2, 3) {
+                mask &= (rng.next() & 0x1ff) as u32;
+            }
+            let kind = 1 + rng.below(3) as u8;
+            let set = mixed_set(3, ext, mask, kind, rng.chance(1, 3));
+            // mostly: the templates WITHOUT an include tag come later
+            let later: Vec<usize> = if rng.chance(2, 3) {
+                (0..3).filter(|i| !has_include(&set[*i].1)).collect()
+            } else {
+                (0..3).filter(|_| rng.chance(1, 2)).collect()
+            };
+            if later.is_empty() {
+                continue;
+            }
+            run.staged(&none, &set, &later, rng.chance(2, 3), &["hist:mixed3"]);
+        }
+        let k = if thorough { 1500 } else { 80 };
+        for _ in 0..k {
+            let n = 3 + rng.below(6);
+            let set = random_set(&mut rng, n);
+            let later: Vec<usize> = (0..n).filter(|i| if rng.chance(1, 2) { !has_include(&set[*i].1) && rng.chance(1, 2) } else { rng.chance(1, 3) }).collect();
+            if later.is_empty() {
+                continue;
+            }
+            run.staged(&none, &set, &later, rng.chance(1, 2), &["hist:random"]);
+        }
+        let k = if thorough { 2000 } else { 120 };
+        for _ in 0..k {
+            let (p, s) = prefix_set(&mut rng);
+            let later: Vec<usize> = (0..s.len()).filter(|_| rng.chance(1, 2)).collect();
+            if later.is_empty() {
+                continue;
+            }
+            run.staged(&p, &s, &later, rng.chance(1, 2), &["hist:prefix"]);
+        }
+    }
+
     // --- long rings and chains: 33, 40, 64, 100 templates
     let mut long = 0usize;
     for n in [33usize, 40, 64, 100] {
@@ -531,7 +950,10 @@ fn main() {
         }
     }
 
-    let Run { graph, render, mut meta, accepted, rejected, renders, aborted, .. } = run;
+    let Run { graph, render, hist, hrender, mut meta, accepted, rejected, renders, aborted, histories, short_name_checks, .. } = run;
+    meta.extra.insert("shadow_sets".into(), json!(shadow));
+    meta.extra.insert("multi_call_histories".into(), json!(histories));
+    meta.extra.insert("short_name_render_checks".into(), json!(short_name_checks));
     meta.extra.insert("long_ring_and_chain_sets".into(), json!(long));
     meta.extra.insert("exhaustive_uniform_sets".into(), json!(exhaustive));
     meta.extra.insert("exhaustive_uniform_space".into(), json!(format!("all digraphs (self-loops included) on 1..={nmax_exh} templates x edge kind in {{extends, include in body, include in block, include in component body}}")));
@@ -543,6 +965,8 @@ fn main() {
     meta.extra.insert("renders_aborted_or_timed_out".into(), json!(aborted));
     meta.families.push(graph.finish());
     meta.families.push(render.finish());
+    meta.families.push(hist.finish());
+    meta.families.push(hrender.finish());
     meta.write(&args.out);
 }
 
@@ -550,6 +974,28 @@ fn replay(path: &std::path::Path) {
     let r: serde_json::Value = serde_json::from_str(&std::fs::read_to_string(path).expect("replay file")).expect("json");
     let case = if r.get("case").is_some() { &r["case"] } else if r.get("input").is_some() { &r["input"] } else { &r };
     let prefixes: Vec<String> = case["prefixes"].as_array().map(|a| a.iter().map(|x| x.as_str().unwrap().to_string()).collect()).unwrap_or_default();
+    if let Some(calls) = case.get("calls").and_then(|c| c.as_array()) {
+        let batches: Vec<Vec<(String, String)>> = calls
+            .iter()
+            .map(|c| c["add"].as_array().unwrap().iter().map(|p| (p[0].as_str().unwrap().to_string(), p[1].as_str().unwrap().to_string())).collect())
+            .collect();
+        let mut names: std::collections::BTreeSet<String> = Default::default();
+        for (k, b) in batches.iter().enumerate() {
+            // registration replayed in a child as well: it may not return
+            let (lines, bad) = run_child_with("render-child", &json!({"prefixes": prefixes, "strict": false, "names": [], "start": 0,
+                "calls": batches[..=k].iter().map(|b| json!(b.iter().map(|(n, s)| json!([n, s])).collect::<Vec<_>>())).collect::<Vec<_>>()}), Duration::from_secs(20));
+            println!("call {k}: add {b:?} -> child {:?} {:?}", bad, lines);
+            for (n, _) in b {
+                names.insert(n.clone());
+            }
+        }
+        let entries: Vec<String> = names.into_iter().collect();
+        let outs = render_entries_in_child(&prefixes, &batches, false, &entries, Duration::from_secs(20));
+        for (o, n) in outs.iter().zip(entries.iter()) {
+            println!("  render({n}) -> {:?}", o);
+        }
+        return;
+    }
     let set: Vec<(String, String)> = case["templates"]
         .as_array()
         .expect("templates")
